@@ -302,7 +302,7 @@ fn check_die_or_list(ch: &mut Choices, cx: &mut Ctx) -> R {
     if nontrivial(&ops) {
         cx.nt();
     }
-    let m = WDwarf { big, units };
+    let m = WDwarf { big, units, dummies: Vec::new() };
     cx.sample_with(|| format!("{} v{} {} expression {} on entry {} of unit 0 ({} entries, {} units) expect {:?}", if in_list { "location list" } else { "DIE attribute" }, m.units[0].version, if m.units[0].format64 { "dwarf64" } else { "dwarf32" }, show(&ops), referrer, counts[0], nunits, expect));
     check_written(&m, &expect, cx, "c15")?;
     // semantic clause, when it was written
@@ -364,7 +364,7 @@ fn check_cfi(ch: &mut Choices, cx: &mut Ctx) -> R {
     let must_fail = !ut.is_empty() || !it.is_empty();
     // ids for the builder: a throw-away unit provides valid ids
     let wu = WUnit { version: 4, format64: enc.format == gimli::Format::Dwarf64, address_size: enc.address_size, entries: (0..4).map(|i| WEntry { parent: 0, tag: if i == 0 { 0x11 } else { 0x24 }, sibling: false, attrs: vec![], reserved_early: false, never_added: false }).collect(), ranges: vec![], locs: vec![], files: None };
-    let m = WDwarf { big, units: vec![wu] };
+    let m = WDwarf { big, units: vec![wu], dummies: Vec::new() };
     let built = build(&m);
     let expr = build_expr(&ops, 0, &built.unit_ids, &built.entry_ids);
     let mut table = w::FrameTable::default();
